@@ -85,14 +85,10 @@ def run_writer(ctx, prop, module, monitor_name):
         lines, rc, err = ctx.run_driver(drv, [])
         if rc != 0:
             broken.append({"kind": "obligation", "name": "driver writer crashed", "detail": err[-1500:]})
+        obs = [l for l in lines if l.startswith("obs ")]
         lines = [l for l in lines if "\t" in l]
-        if ctx.replay:
-            try:
-                rp = json.load(open(ctx.replay))
-                if rp.get("kind") == "trace" and rp.get("input") and rp.get("actual") is not None:
-                    lines.insert(0, rp["input"][len(prop) + 1:] + "\t" + rp["actual"])
-            except Exception as e:
-                ctx.notes.append("replay file not usable: %s" % e)
+        if obs:
+            ctx.coverage["observations"] = obs[-3:]
         plines = [prop + " " + l for l in lines]
         dis = ctx.correspond(plines, orc, "writer.go hook trace + broker journal ↔ Model/Writer.lean (trace acceptance) + monitor " + monitor_name)
         kinds, bigrams, scen, nevents = trace_coverage(lines)
@@ -110,7 +106,11 @@ def run_writer(ctx, prop, module, monitor_name):
     recorded = 0
     for d in concrete[:20]:
         name = d["op"].split()[2] if len(d["op"].split()) > 2 else "?"
-        recorded += ctx.violation({"kind": "trace", "input": d["op"], "actual": d["impl"], "expected": d["model"],
+        secs = d["op"].split(" | ")
+        # `input` = the scenario (configuration + calls): stable across re-runs, so that --replay can tell whether
+        # the same scenario fails again on the current tree (same seed => same scenarios; schedules may differ)
+        recorded += ctx.violation({"kind": "trace", "input": " | ".join(secs[:2]), "events": secs[2] if len(secs) > 2 else "",
+                                   "actual": d["impl"], "expected": d["model"],
                                    "correspondence": d["correspondence"],
                                    "monitor": monitor_name + " is false on the implementation's journal / return values / logs / Completion arguments of this recorded run"},
                                   True, signature="%s monitor %s scenario %s" % (prop, monitor_name, re.sub(r"\d+$", "", name)))
